@@ -1,5 +1,5 @@
 """C03 — garbage collection never reclaims a live object (structural clauses R03a-e)."""
-from ..facts import callee, op_place, place_str, loc_str, short_path
+from ..facts import callee, op_const, op_place, place_str, loc_str, short_path
 from ..flow import Labels, fields_read_of_self, places_read
 from .common import *
 
@@ -338,6 +338,18 @@ def r03c(ctx, rep):
             if reach.get(fname):
                 rep.ok("R03c", key, "%s: field %s (%s) flows to %s" % (
                     MARKERS[mp], fname, why, ", ".join(sorted(reach[fname]))), [fn.span])
+                fty = [f for f in fields if f["name"] == fname][0]
+                holds_vcell = VCELL in fty["ty"] or VCELL in fty.get("hir", "") or fty["ty"] == "marwood::vm::stack::Stack"
+                if holds_vcell:
+                    tot = reach[fname] & {"mark_vcell", "mark_continuation", "mark_lambda"}
+                    (rep.ok if tot else rep.fail)(
+                        "R03c", key + "|adequacy",
+                        "%s: field %s holds VCell values (every variant admissible) and reaches the total marker" % (MARKERS[mp], fname)
+                        if tot else
+                        "%s passes the VCell values of field %s only to the index-only marker Heap::mark after projecting one "
+                        "variant: frame linkage (EnvironmentPointer / InstructionPointer) and inline values saved there are "
+                        "skipped, and the environments and code they reference are reclaimed while the %s is live" % (
+                            MARKERS[mp], fname, adt_path.rsplit("::", 1)[-1]), [fn.span])
             else:
                 rep.fail("R03c", key, "%s never passes field %s (%s) to a marker: what it references is reclaimed "
                          "while the %s is live" % (MARKERS[mp], fname, why, adt_path.rsplit("::", 1)[-1]), [fn.span])
@@ -589,6 +601,148 @@ def r03g(ctx, rep, rule="R03g"):
                                      [push.span])
 
 
+LEN_CHANGERS = ("::resize", "::push", "::pop", "::truncate", "::clear", "::extend", "::insert", "::remove", "::resize_with",
+                "::extend_from_slice", "::append", "::drain", "::split_off")
+
+
+def _returned_self_field(g):
+    """name of the field of `self` a one-line accessor returns (`self.size`), else None"""
+    for bb, j, st in g.stmts():
+        if st["lhs"]["l"] == 0 and not st["lhs"]["p"] and st["rv"]["k"] == "use":
+            pl = op_place(st["rv"]["a"])
+            if pl is not None and pl["l"] == 1:
+                fl = [e["n"] for e in pl["p"] if isinstance(e, dict) and "f" in e]
+                if len(fl) == 1:
+                    return fl[0]
+    return None
+
+
+def r03h(ctx, rep, rule="R03h"):
+    facts = ctx["facts"]
+    rep.rule(rule, "the sweep visits every cell: the index range Heap::sweep iterates ends at the length of the heap vector "
+             "itself, or at an accessor's field that every length-changing method of its owner rewrites (a recorded size "
+             "kept in step with the vector it describes). A range ending at a stale or unrelated bound leaves the upper "
+             "cells unswept: their Used marks survive the cycle, the next cycle takes them for already visited and does "
+             "not descend, and what they alone reference is freed while live.")
+    sw = need(rep, rule, facts, SWEEP)
+    if sw is None:
+        return
+    ranges = [(bb, st) for bb, j, st in sw.stmts() if st["rv"]["k"] == "agg" and (st["rv"].get("adt") or "").startswith("std::ops::Range")
+              and len(st["rv"]["ops"]) == 2]
+    if not ranges:
+        rep.anchor_lost(rule, "index range in Heap::sweep")
+        return
+    for i, (bb, st) in enumerate(ranges):
+        lo, hi = st["rv"]["ops"]
+        key = "%s|sweep|range#%d" % (rule, i + 1)
+        c = op_const(lo)
+        if c is None or c.get("int") not in (0, "0"):
+            rep.fail(rule, key + "|start", "the range swept by Heap::sweep does not start at cell 0", [st["loc"]])
+            continue
+        o = sw.origin(hi)
+        why = None
+        if o[0] == "call":
+            cal = callee(o[1]) or ""
+            if cal.startswith("std::vec::Vec") and cal.endswith("::len"):
+                a = sw.origin(o[1]["args"][0])
+                fl = [e["n"] for e in (a[2] if len(a) > 2 else []) if isinstance(e, dict) and "f" in e]
+                if a[0] == "arg" and a[1] == 1 and fl == ["heap"]:
+                    rep.ok(rule, key, "Heap::sweep iterates 0..self.heap.len()", [st["loc"]])
+                    continue
+                why = "the bound is the length of %s, not of the heap vector" % (".".join(fl) or "another vector")
+            elif cal in facts.fns:
+                g = facts.fns[cal]
+                fld = _returned_self_field(g)
+                owner = cal.rsplit("::", 1)[0]
+                if fld is None:
+                    why = "the bound comes from %s, which is not a plain field accessor" % short_path(cal)
+                else:
+                    stale = []
+                    for p2, h in sorted(facts.fns.items()):
+                        if not p2.startswith(owner + "::") or h.impl_trait in DERIVE_TRAITS or "::tests::" in p2:
+                            continue
+                        changes = [t for b2, t in h.calls() if (callee(t) or "").startswith(("std::vec::Vec", "alloc::vec::Vec"))
+                                   and (callee(t) or "").endswith(LEN_CHANGERS)]
+                        if not changes:
+                            continue
+                        writes = [1 for b2, j2, s2 in h.stmts() if s2["lhs"]["l"] == 1 and
+                                  [e["n"] for e in s2["lhs"]["p"] if isinstance(e, dict) and "f" in e][:1] == [fld]]
+                        if not writes:
+                            stale.append(short_path(p2))
+                    if not stale:
+                        rep.ok(rule, key, "Heap::sweep iterates up to %s, a recorded size every length-changing method of its "
+                               "owner rewrites" % short_path(cal), [st["loc"]])
+                        continue
+                    why = "the bound is the recorded size %s.%s, which %s changes the underlying vector without rewriting" % (
+                        short_path(owner), fld, ", ".join(stale))
+            else:
+                why = "the bound comes from %s" % short_path(cal)
+        else:
+            why = "the bound is not a vector length"
+        rep.fail(rule, key, "Heap::sweep may leave cells unswept: %s" % why, [st["loc"]])
+
+
+THINNING = {"filter": "value", "filter_map": "value", "take_while": "value", "skip_while": "value", "find": "value",
+            "take": "position", "skip": "position", "step_by": "position", "nth": "position", "last": "position"}
+
+
+def r03i(ctx, rep, rule="R03i"):
+    facts = ctx["facts"]
+    rep.rule(rule, "root enumeration is not thinned: between a root location and the marker, run_gc and the accessor "
+             "methods it enumerates roots through (iter_bindings, iter_slots, iter_to_sp, ...) apply no element-dropping "
+             "iterator adaptor. A position-based adaptor (take / skip / step_by) is rejected for every root; a "
+             "value-based one (filter / filter_map / take_while / skip_while) is rejected where every element is a "
+             "reference (index-typed roots such as the keys of globenv.bindings) — there any dropped element is a lost root.")
+    gc = need(rep, rule, facts, RUN_GC)
+    if gc is None:
+        return
+    roots, non = vm_roots(facts, rep)
+    kinds = dict((lab, kind) for lab, kind, why in roots)
+    vm = facts.adts.get(VM)
+    struct_fields = {}
+    if vm:
+        for f in vm["variants"][0]["fields"]:
+            if f["ty"] in facts.adts and facts.adts[f["ty"]]["kind"] == "struct":
+                struct_fields[f["name"]] = f["ty"]
+    # accessor methods run_gc calls on a root-bearing field, with the sub-roots they read
+    scopes = [(gc, None)]
+    for bb, t in gc.calls():
+        c = facts.fn(callee(t))
+        if c is None or not t["args"]:
+            continue
+        o = gc.origin(t["args"][0])
+        fl = [e["n"] for e in (o[2] if len(o) > 2 else []) if isinstance(e, dict) and "f" in e]
+        if o[0] == "arg" and o[1] == 1 and fl and fl[0] in struct_fields and c.path.startswith(struct_fields[fl[0]] + "::"):
+            labs = {"%s.%s" % (fl[0], sf) for sf in fields_read_of_self(c)}
+            scopes.append((c, labs))
+            for cl in facts.closures_of(c):
+                scopes.append((cl, labs))
+    n = 0
+    bad = 0
+    for fn, labs in scopes:
+        n += 1
+        for bb, t in fn.calls():
+            c = callee(t) or ""
+            if "::Iterator::" not in c and "::iter::" not in c:
+                continue
+            m = c.rsplit("::", 1)[-1]
+            how = THINNING.get(m)
+            if how is None:
+                continue
+            affected = sorted(labs) if labs is not None else ["(a root enumerated in run_gc)"]
+            refs = [l for l in affected if kinds.get(l) == "ref"]
+            if how == "position" or refs or labs is None:
+                bad += 1
+                rep.fail(rule, "%s|%s|%s" % (rule, fn.short.rsplit("::", 1)[-1] if "closure" not in fn.short else fn.short.split("::")[-2] + "::closure", m),
+                         "%s applies Iterator::%s while enumerating the roots %s for run_gc: elements it drops are never "
+                         "marked, and what only they reference is reclaimed while live" % (fn.short, m, ", ".join(refs or affected)),
+                         [t["loc"]])
+    rep.floor(rule, "root enumeration scopes (run_gc + accessor methods)", n, 4)
+    if not bad:
+        rep.ok(rule, "%s|enumeration" % rule, "no element-dropping adaptor on the way from a root location to its marker "
+               "(%d scopes: %s)" % (n, ", ".join(sorted({f.short.rsplit("::", 1)[-1] for f, _ in scopes}))), [gc.span])
+
+
 def op_const_int(op):
     c = op.get("const") if op else None
     return c.get("int") if c else None
@@ -601,6 +755,8 @@ def run(ctx, rep):
     r03d(ctx, rep, empty)
     r03e(ctx, rep)
     r03g(ctx, rep)
+    r03h(ctx, rep)
+    r03i(ctx, rep)
     from . import C18
     C18.r18a(ctx, rep, rule="R03f")
     C18.r18b(ctx, rep, rule="R03f")
